@@ -23,8 +23,13 @@ def run_sequence(seed, steps=12, bound=None, reduction=None, order_shuffle=False
     red = (lambda xs: torch.stack(xs, 0).sum(0)) if reduction is None else (lambda xs: reduction(torch.stack(xs, 0), 0))
     lim = (1.5, -1.5)
     if bound == "mult":
-        u.weight.upperbound(F.bound_upper_multiplicative, lim[0])
-        u.weight.lowerbound(F.bound_lower_multiplicative, lim[1])
+        # the two half bounds are configured in an order that depends on the seed (up,lo / lo,up / up,lo,up / lo,up,lo): each
+        # keeps its own function and limit whatever the order
+        for which in (("up", "lo"), ("lo", "up"), ("up", "lo", "up"), ("lo", "up", "lo"))[seed % 4]:
+            if which == "up":
+                u.weight.upperbound(F.bound_upper_multiplicative, lim[0])
+            else:
+                u.weight.lowerbound(F.bound_lower_multiplicative, lim[1])
     elif bound == "full_sharp":
         u.weight.fullbound(F.bound_sharp, lim[0], lim[1])
     pos, neg = [], []
@@ -238,6 +243,11 @@ def replay_bounding(name, model):
 
 
 def replay(contract, label, model, note=""):
+    if contract.startswith("Accumulator.") or contract.startswith("Updater."):
+        for s_ in range(40):
+            f = run_sequence(s_, bound="mult")
+            if f:
+                return {"reproduced": True, "failure": f, "concrete": f["input"], "search": {"points_tried": s_ + 1}}
     if contract.startswith("Updatable."):
         fu, nu = updatesome_cases()
         if fu:
